@@ -9,6 +9,7 @@ CONSTANTS
   MVals = {}
   OVals = {101, 102}
   WithDelSpace = TRUE
+  WithChild = FALSE
   OpenFindings = {}
   MaxOps = 99
   Dump = TRUE
